@@ -3,6 +3,7 @@ import UralModel.Model.UrlsFromHtml
 import UralModel.Lemmas.UrlsFromHtml
 import UralModel.Lemmas.HtmlDoc
 import UralModel.Gen.HtmlPatterns
+import UralModel.Gen.HtmlRe
 /-!
 # C17 — HTML extraction is str/bytes-independent; links are followable and distinct
 
@@ -359,6 +360,15 @@ theorem html_patterns_ascii_determined :
     urlInHtmlBinary.asciiDetermined reASCII reLOCALE reUNICODE = true ∧
     scriptTag.asciiDetermined reASCII reLOCALE reUNICODE = true ∧
     scriptTagBinary.asciiDetermined reASCII reLOCALE reUNICODE = true := by decide
+
+/-- the same fact, exact: for every leaf of `URL_IN_HTML_RE` the translator of the shared regex
+framework asked the running `re` engine which of the 0x110000 code points it matches (flags
+and case folding included); each answer is a set of ASCII code points or the complement of
+one.  (Vacuous only if the framework cannot translate the pattern at all.) -/
+theorem url_in_html_exact_classes_ascii :
+    (Ural.Gen.HtmlRe.urlInHtmlRe.map
+      (Ural.Py.Re.allCls fun C => C.ranges.all fun r => r.1 ≤ r.2 && r.2 < 128)).getD true = true := by
+  decide
 
 /-- the four regexes are case-insensitive, the `str` ones are `re.I | re.ASCII`, and they are
 the regexes for `str` (resp. `bytes`) documents -/
